@@ -369,8 +369,8 @@ __strfdt_card(
 
 	case DT_SPFL_N_EPOCH:
 	case DT_SPFL_N_EPOCHNS: {
-		/* convert to sexy */
-		int64_t sexy = dt_conv_to_sexy(that).sexy;
+		/* convert to sexy, the epoch is counted in UTC */
+		int64_t sexy = dt_conv_to_sexy(that).sexy - d->zdiff;
 		res = sntrunc(snprintf(buf, bsz, "%" PRIi64, sexy), bsz);
 		break;
 	}
